@@ -276,6 +276,7 @@ impl TraitHandler for OrdEnumHandler {
 
         token_stream.extend(quote! {
             impl #impl_generics ::core::cmp::Ord for #ident #ty_generics #where_clause {
+                #[allow(non_snake_case)] // the bindings are named after the fields, with a prefix
                 #[inline]
                 fn cmp(&self, other: &Self) -> ::core::cmp::Ordering {
                     #cmp_token_stream
